@@ -519,6 +519,9 @@ def main(argv):
             broken.append(f"undischarged obligations: {ob['open'][:6]}")
     if static_res:
         for p_ in static_res.get("problems", []):
+            if p_.get("key") and (prop, p_["key"]) in known_keys:
+                known_hits.append(dict(property=prop, key=p_["key"], what=p_.get("text", "")))
+                continue
             if p_.get("failing_input"):
                 path = write_replay(prop, p_["name"], p_["header"], p_.get("lines", []))
                 replay_paths.append(path)
